@@ -575,10 +575,19 @@ def _key_is_length(ctx, fi, key):
         body = key.body
     elif isinstance(key, ast.Name):
         f = fi.module.functions.get(key.id) if hasattr(fi.module, 'functions') else None
+        if f is None:
+            # a helper inlined from another module keeps referring to that module's key function
+            cands = [m_.functions[key.id] for m_ in ctx.model.modules.values()
+                     if key.id in m_.functions and not m_.name.startswith('tests')]
+            f = cands[0] if len(cands) == 1 else None
         if f is not None:
             sts = [x for x in f.node.body if not (isinstance(x, ast.Expr) and isinstance(x.value, ast.Constant))]
             if len(sts) == 1 and isinstance(sts[0], ast.Return) and sts[0].value is not None:
                 body = sts[0].value
+            elif len(sts) == 2 and isinstance(sts[0], ast.Assign) and isinstance(sts[1], ast.Return) and \
+                    sts[1].value is not None:
+                # ``path, _ = entry; return len(path)``: unpacking the element first
+                body = sts[1].value
     return body is not None and isinstance(body, ast.Call) and dotted(body.func) == 'len'
 
 
